@@ -77,7 +77,11 @@ def make_script(c):
     """c: dict(system, space, dt, ts, tmax, policy, interval, seed, units, tunit)"""
     us = c.get("units") or {}
     usys = UnitsSystem(**us)
-    kw = dict(system=get_system(c["system"], c.get("space", "grid")),
+    system = get_system(c["system"], c.get("space", "grid"))
+    if "state" in c:
+        system = system.copy()
+        system.state = UnitArray([float(x) for x in c["state"]], "molecule")
+    kw = dict(system=system,
               t_sample=list(c["ts"]), time_step=c["dt"],
               sampling_policy=c["policy"], sampling_interval=c.get("interval", 1),
               rng_seed=c.get("seed", 1), units_system=usys)
@@ -234,7 +238,7 @@ class Runner:
             self.scripts[key] = make_script(c)
         return key, self.scripts[key]
 
-    def ref(self, c, kind, timeout=60):
+    def ref(self, c, kind, timeout=20):
         key, script = self.script(c)
         rk = (key, kind)
         if rk not in self.refs:
